@@ -62,9 +62,22 @@ fn take(sections: &write::Sections<EndianVec<RunTimeEndian>>) -> Secs {
     out
 }
 
+thread_local! {
+    /// stepwise routes skip attributes that cannot be converted (as crates/examples/src/bin/convert.rs does)
+    pub static LENIENT: std::cell::Cell<bool> = const { std::cell::Cell::new(false) };
+    /// `convert_filtered` calls `require_entry` for every required entry of a unit BEFORE reading
+    /// the unit's entries (offsets from an earlier pass), instead of while reading them
+    pub static EARLY_REQUIRE: std::cell::Cell<bool> = const { std::cell::Cell::new(false) };
+}
+
 fn convert_attributes<'a>(unit: &mut write::ConvertUnit<'_, RD<'a>>, id: write::UnitEntryId, entry: &write::ConvertUnitEntry<'_, RD<'a>>) -> Result<(), ConvertError> {
+    let lenient = LENIENT.with(|l| l.get());
     for attr in &entry.attrs {
-        let value = unit.convert_attribute_value(entry.read_unit, attr, &addr)?;
+        let value = match unit.convert_attribute_value(entry.read_unit, attr, &addr) {
+            Ok(v) => v,
+            Err(_) if lenient => continue,
+            Err(e) => return Err(e),
+        };
         unit.unit.get_mut(id).set(attr.name(), value);
     }
     Ok(())
@@ -212,15 +225,40 @@ pub fn convert_filtered(secs: &Secs, big: bool, required: &[String], stepwise: b
         let mut sections = write::Sections::new(EndianVec::new(endian(big)));
         let mut dwarf = write::Dwarf::default();
         let r = (|| -> Result<Result<(), write::Error>, ConvertError> {
+            let early = EARLY_REQUIRE.with(|e| e.get());
+            // first pass (early mode only): offsets of the required entries, per unit
+            let mut wanted: Vec<Vec<gimli::UnitOffset>> = vec![];
+            if early {
+                let mut scout = write::FilterUnitSection::new(&rd)?;
+                while let Some(mut unit) = scout.read_unit()? {
+                    let mut v = vec![];
+                    let mut entry = unit.null_entry();
+                    while unit.read_entry(&mut entry)? {
+                        if let Some(gimli::read::AttributeValue::String(s)) = entry.attr_value(gimli::DW_AT_name) {
+                            if required.iter().any(|r| r.as_bytes() == s.slice()) {
+                                v.push(entry.offset);
+                            }
+                        }
+                    }
+                    wanted.push(v);
+                }
+            }
             let mut filter = write::FilterUnitSection::new(&rd)?;
+            let mut ui = 0usize;
             while let Some(mut unit) = filter.read_unit()? {
+                if early {
+                    for off in wanted.get(ui).cloned().unwrap_or_default() {
+                        unit.require_entry(off);
+                    }
+                }
+                ui += 1;
                 let mut entry = unit.null_entry();
                 while unit.read_entry(&mut entry)? {
                     let need = match entry.attr_value(gimli::DW_AT_name) {
                         Some(gimli::read::AttributeValue::String(s)) => required.iter().any(|r| r.as_bytes() == s.slice()),
                         _ => false,
                     };
-                    if need {
+                    if need && !early {
                         unit.require_entry(entry.offset);
                     }
                 }
